@@ -45,7 +45,7 @@ ASSUMPTIONS = [
 
 def cases(rng, tier):
     return [c for c in S.gen_cases(rng, tier, 200 if tier == "quick" else 3000) if c["mode"] == "deser"] \
-        + S.size_bound_cases(random.Random("size" + str(rng.getstate()[1][0]))) \
+        + S.size_bound_cases(random.Random("size" + str(rng.getstate()[1][0]))) + S.offpath_null_cases() \
         + X.directed_corrupt_cases() + X.gen_corrupt_cases(rng, 300 if tier == "quick" else 6000) \
         + X.directed_image_cases() + X.image_cases(random.Random("img" + str(rng.getstate()[1][0])), 150 if tier == "quick" else 3000) \
         + [dict(c, suite="extras-corrupt", nested=False, corrupt=[random.Random(str(i)).randrange(len(c["fields"])), i % len(X.CORRUPTIONS), i % 3])
@@ -139,6 +139,16 @@ def judge(case, impl, model):
         if ("ok" in fn) != ("ok" in got) or ("err" in fn and fn["err"] != got["err"]) or ("ok" in fn and not S._same(fn["ok"], got["ok"])):
             fails.append((f"deserialize-fn-differs:{kinds}", "deserialize_structure(cls, d, keep_undefined=...) and Deserializer(cls).deserialize(d) disagree: "
                           + json.dumps(fn)[:150] + " vs " + json.dumps(got)[:150] + " for " + json.dumps(case["doc"])[:150]))
+    if model.get("liftable") and offpath and not S.crosstype_duplicates(case["doc"]):
+        # a null for an optional field INSIDE an inline StructureReference that is reached through a Map value, a Tuple
+        # item, a Deque or a nested Array: everywhere else (class references at any position, an inline class held
+        # directly or as a direct Array item) a null is the same as an absent key; there it is handed to the field as
+        # the value None.  The Lean model reads a null as absent everywhere (the documented reading), so only the
+        # over-rejection is reported here (correspondence is not demanded for these documents).
+        exp = model["expected"]
+        if "ok" in exp and "ok" not in got:
+            fails.append(("rejects-image:null-in-off-path-inline-reference",
+                          f"document is the JSON form of constructor-valid arguments (a null = an absent optional field) but the Deserializer raises {got['err']}: {got.get('msg')}; doc " + json.dumps(case["doc"])[:250]))
     if impl.get("doc_unchanged") is False:
         fails.append((f"mutates-document:{kinds}", "Deserializer modified the caller's document (C19)"))
     return msg, fails
